@@ -676,6 +676,10 @@ func guardIntact(g []byte) bool {
 type cloneSeg struct {
 	orig *asm.Emitter
 	sib  *asm.Emitter
+	// Nested: the block goes into a clone of a clone (the outer clone emits nothing itself and
+	// is appended right after the inner one): still one sequence of emitter calls
+	Nested bool
+	outer  *asm.Emitter
 }
 
 func (cs *cloneSeg) active() bool { return cs.orig != nil }
@@ -689,6 +693,13 @@ func (cs *cloneSeg) begin(e **asm.Emitter, room int) string {
 	sim.RecoverLib(func() { cs.sib = (*e).Clone(make([]byte, room+8)) })
 	if cs.sib != nil {
 		asmApply(cs.sib, sim.Op{K: "ins", S: "NOP"})
+	}
+	if cs.Nested {
+		var c2 *asm.Emitter
+		if p, pv := sim.RecoverLib(func() { c2 = c.Clone(make([]byte, room)) }); p || c2 == nil {
+			return "Clone of a clone panicked: " + sim.PanicString(pv)
+		}
+		cs.outer, c = c, c2
 	}
 	cs.orig, *e = *e, c
 	return ""
@@ -704,10 +715,17 @@ func (cs *cloneSeg) mirror(op sim.Op) {
 func (cs *cloneSeg) end(e **asm.Emitter) (block []byte, msg string) {
 	c := *e
 	block = append([]byte{}, c.Bytes()...)
-	if p, pv := sim.RecoverLib(func() { cs.orig.Append(c) }); p {
+	if cs.outer != nil {
+		// the outer clone has all the room it needs: this Append fits
+		if p, pv := sim.RecoverLib(func() { cs.outer.Append(c) }); p {
+			msg = "Append of a clone's clone to the clone panicked: " + sim.PanicString(pv)
+		}
+		c = cs.outer
+	}
+	if p, pv := sim.RecoverLib(func() { cs.orig.Append(c) }); p && msg == "" {
 		msg = "Append panicked: " + sim.PanicString(pv)
 	}
-	*e, cs.orig, cs.sib = cs.orig, nil, nil
+	*e, cs.orig, cs.sib, cs.outer = cs.orig, nil, nil, nil
 	return
 }
 
